@@ -118,11 +118,11 @@ func (v *verifyCtx) enterLoop(x *Exec, st *State, fr *Frame, b *ssa.BasicBlock, 
 	// havoc loop-carried values and declared locations
 	var mods []Ptr
 	for _, m := range lc.Modifies {
-		p := e.evalLoc(m)
-		if p.Obj == nil {
-			continue
+		for _, p := range e.evalLocs(m) {
+			if p.Obj != nil {
+				mods = append(mods, p)
+			}
 		}
-		mods = append(mods, p)
 	}
 	mark := x.nextObj
 	for _, p := range mods {
@@ -525,9 +525,10 @@ func (x *Exec) frameObligs(v *verifyCtx, post *State, name string) {
 	e.post = v.pre // locations are resolved in the pre-state
 	var locs []Ptr
 	for _, a := range v.c.Assigns {
-		p := e.evalLoc(a)
-		if p.Obj != nil {
-			locs = append(locs, p)
+		for _, p := range e.evalLocs(a) {
+			if p.Obj != nil {
+				locs = append(locs, p)
+			}
 		}
 	}
 	var ids []int
@@ -653,14 +654,15 @@ func (x *Exec) applyContract(st *State, fn *ssa.Function, c *FnContract, args []
 	}
 	// havoc
 	for _, a := range c.Assigns {
-		p := e.evalLoc(a)
-		if p.Obj == nil {
-			continue
+		for _, p := range e.evalLocs(a) {
+			if p.Obj == nil {
+				continue
+			}
+			if x.storeHook != nil {
+				x.storeHook(normal, p)
+			}
+			x.storeRaw(normal, p, x.havocLike(normal, x.load(normal, p), p.Obj.Name))
 		}
-		if x.storeHook != nil {
-			x.storeHook(normal, p)
-		}
-		x.storeRaw(normal, p, x.havocLike(normal, x.load(normal, p), p.Obj.Name))
 	}
 	var rets []Value
 	rs := fn.Signature.Results()
